@@ -61,13 +61,58 @@ func vxLimitTemplates() []vxLimitTpl {
 				vxRule(vxA("jq", "X", "Y"), vxA("ja", "X"), vxA("jb", "Y"), vxA("jc", "Y")),
 			}, edb: []ast.PredicateSym{vxP("ja", 1), vxP("jb", 1), vxP("jc", 1)}, idb: []ast.PredicateSym{vxP("jq", 2)}},
 		},
-		{ // 7: an earlier stratum may use up exactly the budget before a product stratum starts
+		{ // 8 is below; 7: an earlier stratum may use up exactly the budget before a product stratum starts
 			t: vxTemplate{name: "copy-then-product", rules: []ast.Clause{
 				vxRule(vxA("a", "X"), vxA("s", "X")),
 				vxRule(vxA("pp", "X", "Y"), vxA("a", "X"), vxA("a", "Y")),
 			}, edb: []ast.PredicateSym{vxP("s", 1)}, idb: []ast.PredicateSym{vxP("a", 1), vxP("pp", 2)}},
 		},
+		{ // 8: arithmetic generator over a lattice-valued relation (fundep + merge predicate): every
+			// derived fact has a fresh key, so the store grows by one fact per round through the merge
+			// branch; the horizon makes the model finite but larger than any limit explored
+			t: vxTemplate{name: "count-up-merge-predicate", rules: []ast.Clause{
+				vxRule(vxA("dist", "N", "D"), vxA("s2", "N", "D")),
+				vxRule(vxA("dist", "M", "E"), vxA("dist", "N", "D"), vxA("horizon", "H"), vxA(":lt", "N", "H"),
+					eq("M", vxFn(symbols.Plus, "N", 1)), eq("E", vxFn(symbols.Plus, "D", 2))),
+				vxRule(vxA("smaller", "D1", "D2", "D"), vxA(":lt", "D1", "D2"), eq("D", ast.Variable{Symbol: "D1"})),
+				vxRule(vxA("smaller", "D1", "D2", "D"), vxA(":le", "D2", "D1"), eq("D", ast.Variable{Symbol: "D2"})),
+			}, edb: []ast.PredicateSym{vxP("s2", 2), vxP("horizon", 1)}, idb: []ast.PredicateSym{vxP("dist", 2)},
+				decls: vxMergeDecls()},
+			diverges: true, // within the reference's round bound: the model has more than 30 facts
+			seed: func(store factstore.FactStore, ref *vxRef) {
+				n, d := vxInt64("n0"), vxInt64("d0")
+				vxAssume(n >= 0 && n < 3)
+				for _, a := range []ast.Atom{vxA("s2", ast.Number(n), ast.Number(d)), vxA("horizon", 40)} {
+					store.Add(a)
+					ref.addAtom(a)
+				}
+			},
+		},
 	}
+}
+
+// vxMergeDecls: Decl dist(Node, D) descr [fundep([Node],[D]), merge([D], "smaller")] and
+// Decl smaller(D1, D2, D) descr [mode("+","+","-"), deferred()].
+func vxMergeDecls() []ast.Decl {
+	v := func(s string) ast.Variable { return ast.Variable{Symbol: s} }
+	list := func(vs ...ast.BaseTerm) ast.ApplyFn {
+		return ast.ApplyFn{Function: ast.FunctionSym{Symbol: "fn:list", Arity: -1}, Args: vs}
+	}
+	dist, err := ast.NewDecl(ast.NewAtom("dist", v("Node"), v("D")), []ast.Atom{
+		ast.NewAtom(ast.DescrFunDep, list(v("Node")), list(v("D"))),
+		ast.NewAtom(ast.DescrMergePredicate, list(v("D")), ast.String("smaller")),
+	}, nil, nil)
+	if err != nil {
+		panic(err)
+	}
+	smaller, err := ast.NewDecl(ast.NewAtom("smaller", v("D1"), v("D2"), v("D")), []ast.Atom{
+		ast.NewAtom(ast.DescrMode, ast.String("+"), ast.String("+"), ast.String("-")),
+		ast.NewAtom(ast.DescrDeferredPredicate),
+	}, nil, nil)
+	if err != nil {
+		panic(err)
+	}
+	return []ast.Decl{dist, smaller}
 }
 
 // VxC17Limit: evaluation under WithCreatedFactLimit(L), 1 <= L <= LMAX symbolic.
